@@ -65,7 +65,8 @@ func mustFunc(rel, name string) *ast.FuncDecl {
 func funcKernel(rel, fn, leanName, params, resultTy string, sp Spec) func() string {
 	return func() string {
 		fd := mustFunc(rel, fn)
-		t := &tr{sp: sp}
+		t := &tr{sp: sp, file: parseFile(rp(rel))}
+		t.prepare(fd)
 		body := t.block(fd.Body.List, "none", "  ")
 		return fmt.Sprintf("/-- generated from %s func %s -/\ndef %s %s : %s :=\n  %s\n", rel, fn, leanName, params, resultTy, body)
 	}
@@ -187,6 +188,29 @@ func loopVerdictKernel(rel, fn, marker, canonVal, leanName, params, resultTy, fa
 		}
 		return fmt.Sprintf("/-- generated from %s func %s: body of the loop over `%s`, as a verdict per element -/\ndef %s %s : %s :=\n  %s\n",
 			rel, fn, src(r.X), leanName, params, resultTy, sp.Prelude+t.block(r.Body.List, fall, "  "))
+	}
+}
+
+// foreverBodyKernel translates the body of the unique `for { … }` (no init, condition or post statement) of fn: one iteration of
+// the loop as a function of what the iteration observes; falling off the end of the body (next iteration) yields `fall`.
+func foreverBodyKernel(rel, fn, leanName, params, resultTy, fall string, sp Spec) func() string {
+	return func() string {
+		fd := mustFunc(rel, fn)
+		t := &tr{sp: sp, file: parseFile(rp(rel))}
+		t.prepare(fd)
+		var loops []*ast.ForStmt
+		ast.Inspect(fd.Body, func(n ast.Node) bool {
+			if f, ok := n.(*ast.ForStmt); ok && f.Init == nil && f.Cond == nil && f.Post == nil {
+				loops = append(loops, f)
+			}
+			return true
+		})
+		if len(loops) != 1 {
+			panic(bail{fmt.Sprintf("%s: expected exactly one `for { … }` in %s, found %d", rel, fn, len(loops))})
+		}
+		t.aliasesOnPathTo(loops[0])
+		return fmt.Sprintf("/-- generated from %s func %s: one iteration of its `for { … }` loop -/\ndef %s %s : %s :=\n  %s%s\n",
+			rel, fn, leanName, params, resultTy, sp.Prelude, t.block(loops[0].Body.List, fall, "  "))
 	}
 }
 
